@@ -248,7 +248,11 @@ func dialOverTraced(cfg ConnCfg, tr *xport.ScriptConn) (*websocket.Conn, int, er
 		TLSHandshakeStart:    func() { fired++ },
 		TLSHandshakeDone:     func(tls.ConnectionState, error) { fired++ },
 	}
-	c, _, err := d.DialContext(httptrace.WithClientTrace(context.Background(), trace), "ws://example.com/", nil)
+	// the context also carries a deadline (and HandshakeTimeout is zero): it
+	// bounds the handshake, not the connection that Dial returns
+	ctx, cancel := context.WithTimeout(context.Background(), time.Hour)
+	defer cancel()
+	c, _, err := d.DialContext(httptrace.WithClientTrace(ctx, trace), "ws://example.com/", nil)
 	tr.OnWrite = nil
 	return c, fired, err
 }
